@@ -78,6 +78,11 @@ func c17GenSet(seed int64, idx int, tag string) *yang.ModSet {
 			yang.S("list", "two-pat-list", yang.S("key", "name"),
 				yang.S("leaf", "name", yang.S("type", "string", yang.S("pattern", "[a-z]+"), yang.S("pattern", "a.*"))),
 				yang.S("leaf", "weight", yang.S("type", "uint8"))),
+			// enums with a status of their own: the value space is the declared names, whatever their status
+			yang.S("leaf", "st-enum", yang.S("type", "enumeration", yang.S("enum", "legacy", yang.S("status", "obsolete")), yang.S("enum", "older", yang.S("status", "deprecated")), yang.S("enum", "fast"))),
+			yang.S("list", "st-enum-list", yang.S("key", "name"),
+				yang.S("leaf", "name", yang.S("type", "enumeration", yang.S("enum", "half", yang.S("status", "obsolete")), yang.S("enum", "full"))),
+				yang.S("leaf", "weight", yang.S("type", "uint8"))),
 			// unions with two members of the same built-in type that differ in their restrictions
 			yang.S("leaf", "two-u", yang.S("type", "union", yang.S("type", "uint8", yang.S("range", "1..5")), yang.S("type", "uint8", yang.S("range", "10..20")))),
 			yang.S("list", "two-u-list", yang.S("key", "name"),
